@@ -95,6 +95,7 @@ type Sent struct {
 	Err       error  // answer of the node's own ledger (PoolTx)
 	Pending   bool   // the request was pending on the node's ledger
 	Conflict  bool   // another response to the same request sat in the node's pool
+	BH        int    // height of the node's ledger when it built the transaction
 	relayed   bool
 	seq       int
 }
